@@ -104,6 +104,37 @@ def canon_addr(v):
     return v
 
 
+def server_addr_text(v):
+    """The text the server itself (ircu's ircd_ntoa) prints for a 128-bit address value, or None where the notation is
+    a matter of taste (IPv4-mapped and IPv4-compatible values).  "::" stands for the first of the longest runs of zero
+    groups - a single zero group included - and a run at the very start is written "0::"."""
+    if v is None or (v >> 32) in (0, 0xffff):
+        return None
+    g = [(v >> (16 * (7 - j))) & 0xffff for j in range(8)]
+    best_s, best_n, cur = 0, 0, 0
+    for i in range(9):
+        if i < 8 and g[i] == 0:
+            cur += 1
+        else:
+            if cur > best_n:
+                best_s, best_n = i - cur, cur
+            cur = 0
+    if best_s == 0 and best_n == 1:
+        best_n = 0
+    out = ""
+    i = 0
+    while i < 8:
+        if best_n > 0 and i == best_s:
+            out += "0::" if i == 0 else ":"
+            i += best_n
+            continue
+        out += "%x" % g[i]
+        if i < 7:
+            out += ":"
+        i += 1
+    return out
+
+
 def glob_match(pat, s):
     """Minimal glob: '*' and '?' only (patterns are generated without [ and \\)."""
     pi = si = 0
@@ -668,6 +699,9 @@ class Spec:
             return
         if canon_addr(addr_value(addr)) != c.addr:
             self.v("C06", "query_addr", "query address %s is not the announced %s" % (addr, c.ip))
+        elif addr != c.ip and server_addr_text(addr_value(c.ip)) == c.ip:
+            # the server announced the address in its own notation: "exactly as the server reported" is then literal
+            self.v("C06", "query_addr_text", "query address %s is written differently from the announced %s" % (addr, c.ip))
         if host is not None:
             if hst != host:
                 self.v("C06", "query_content", "query host %r, expected %r" % (hst, host))
@@ -724,7 +758,7 @@ class Spec:
             self.v("C05", "kill_without_no", "rejection %r without an awaited NO for this client in this step" % raw)
             return
         want = ":" + rc["reply"][3:]
-        if tail != want:
+        if tail != want and not (len(want) > 900 and len(tail) > 900 and want.startswith(tail)):
             self.v("C05", "kill_text", "rejection text %r differs from the service's %r" % (tail, want))
         rc["killed"] = True
 
@@ -754,6 +788,10 @@ class Spec:
             offered = [a for (_, a) in c.accounts if a]
             if acct not in offered:
                 self.v("C05", "account_not_vouched", "%s accepted with account %r which no awaited login service vouched (vouched: %r)" % (c.tag, acct, offered))
+            elif len(parts) > 2 and not any(" " in (f_.get("class") or n_) for n_, f_ in self.conf.rules):
+                # the stamp is one word, the class (no configured class contains a blank) at most one more: anything
+                # else is text that rode along with the stamp
+                self.v("C05", "account_stamp_not_exact", "%s accepted with %r after the address: more than the vouched stamp %r and a class" % (c.tag, tail, acct))
         else:
             klass = parts[0] if parts else None
             strong = [a for (s, a) in c.accounts if a and c.acct_proto.get((s, a)) in ("login", "login-ipr")]
@@ -827,7 +865,8 @@ class Spec:
             ch = rc.get("challenges", [])
             if rc["kind"] in ("MORE", "AGAIN"):
                 want = ":" + rc["reply"][len(rc["kind"]) + 1:]
-                if ch != [want]:
+                if ch != [want] and not (len(want) > 900 and len(ch) == 1 and len(ch[0]) > 900 and want.startswith(ch[0])):
+                    # (a text longer than the daemon's 1024-byte output line arrives cut short: the cut is not judged)
                     self.v("C05", "relay_text", "%s %r relayed as %r" % (rc["kind"], want, ch))
             elif rc["kind"] == "unlinked":
                 pass
